@@ -58,7 +58,13 @@ def _admissible(nodes, m):
         p = nodes[i - 1:i + 2]
         val = ref.lagrange3(m, *p)
         a, b, c = _coeffs(*p)
-        return val, 1e-11 * (abs(a) * m * m + abs(b) * abs(m) + abs(c)), f"parabola({i - 1},{i},{i + 1})"
+        # conditioning: the coefficients come from divided differences over the node gaps, so their rounding error is
+        # ~eps * |y| / gap^2 and is amplified by the squared distance of the query from the nodes (matters for dense
+        # nodes and for extrapolation far beyond the table)
+        dmin = min(p[1][0] - p[0][0], p[2][0] - p[1][0])
+        dist = max(abs(m - p[0][0]), abs(m - p[2][0]))
+        cond = 64 * 2.3e-16 * max(abs(p[0][1]), abs(p[1][1]), abs(p[2][1])) * (dist / dmin) ** 2
+        return val, 1e-11 * (abs(a) * m * m + abs(b) * abs(m) + abs(c)) + cond, f"parabola({i - 1},{i},{i + 1})"
 
     if m >= xs[-1]:
         out.append(para(n - 2))
@@ -195,7 +201,11 @@ def _custom(draw):
         elif kind == "side":
             qs.append(nodes[j][0] + draw(st.sampled_from([1e-9, 1e-6])) * gap)
         else:
-            qs.append(nodes[-1][0] * (1 + draw(st.floats(0.0, 2.0))) + draw(st.floats(0.0, 1.0)))
+            # beyond the table: the parabola through the last three points, followed for at most 50 of their smallest gap
+            # (further out the extrapolation of densely spaced nodes is ill-conditioned beyond any meaningful tolerance)
+            dmin = min(nodes[-1][0] - nodes[-2][0], nodes[-2][0] - nodes[-3][0])
+            far = min(nodes[-1][0] * 2.0 + 1.0, 50.0 * dmin)
+            qs.append(nodes[-1][0] + draw(st.floats(0.0, 1.0)) * far)
     return {"nodes": nodes, "bc": 10 ** draw(st.floats(-2.0, math.log10(5.0))), "queries": qs,
             "as_points": draw(st.booleans())}
 
